@@ -277,6 +277,13 @@ func (f *SimFSM) Apply(op *raft.Operation) interface{} {
 
 func (f *SimFSM) Snapshot(w io.Writer) error {
 	f.wait(f.GateSnapshot, "snapshot")
+	if f.SnapEvery > 0 {
+		// Taking a snapshot takes time. Snapshot directories are named after the nanosecond of their
+		// publication: under the frozen virtual clock two snapshots taken back to back (a backlog after a
+		// slow one), or one taken and one received, would otherwise be published in the same nanosecond.
+		// Own snapshots end at residue 250 of the microsecond (applies at 0, the scheduler acts at 500).
+		sleepToResidue(250)
+	}
 	f.mu.Lock()
 	st := f.st
 	st.Indices = append([]uint64{}, f.st.Indices...)
